@@ -277,7 +277,7 @@ func ruleMShallow(rule string) RuleFn {
 				}
 			})
 		}
-		c.Floor(rule, "errMissingDependencies construction sites", n, 3)
+		c.Floor(rule, "errMissingDependencies construction sites", n, 2)
 	}
 }
 
